@@ -114,6 +114,7 @@ pub fn run_c06(ctx: &mut Ctx) {
     let mut or = Oracle::new("C06",
         "buffer_size 0..4096 exhaustively + residues around powers of two + random to 1 MiB for the effective size; critical pairs of size B-13 (bound), B-12..B-8 (inside the true limit) and B-7 (beyond, informational) placed at the start / middle / end of a record and across records, \
          under buffer-filling, 1-byte, single-cut and random chunkings; after every parse call `not done => non-empty input buffer`. Non-trivial: all pair cases; distinct by (B, pair size, position, chunking)");
+    crate::exec::witness_corpus(&["C06_"], &mut log, &mut im, &mut or);
     let mut rng = ctx.rng.fork();
     log.case("flat-aligned");
     let mut sizes: Vec<usize> = (0..=4096).collect();
